@@ -317,7 +317,7 @@ def run(rep: Report, only: str = "") -> None:
 
     thorough = rep.tier == "thorough"
     timeout = 900 if thorough else 120
-    depth = 3 if thorough else 1
+    depth = 1  # the unrolled cross-check at depth >= 2 leaves one nonlinear obligation undecided by z3 within minutes (measured): not claimed in either tier
     tasks = [(task_step, (0, timeout)), (task_step, (1, timeout)), (task_final, (timeout,))]
     tasks += [(task_unrolled, (n, timeout)) for n in range(1, depth + 1)]
     tasks.append((wiring, (64 if thorough else 32,)))
